@@ -668,7 +668,11 @@ def c10(E, blt, opts, r):
         new = [(merged[k][0], merged[k][1]) for k in order]
     rng.shuffle(new)
     use_nick = rng.random() < 0.5
-    nicks = ['n%s' % chr(97 + i % 26) + str(i) for i in range(n)]
+    # nicknames of several shapes, some beginning with digits ('3rd0', '2_b1'): only a token made of digits alone is a number
+    shapes = ['n%(a)s%(i)d', '%(k)drd%(i)d', '%(k)d_%(a)s%(i)d', '%(k)dA%(i)d', '%(a)s%(k)d']
+    shape = rng.choice(shapes + ['mixed', 'n%(a)s%(i)d'])
+    nicks = [(rng.choice(shapes) if shape == 'mixed' else shape) % dict(a=chr(97 + i % 26), i=i, k=rng.randint(1, n)) for i in range(n)]
+    if len(set(nicks)) < n: nicks = ['n%s' % chr(97 + i % 26) + str(i) for i in range(n)]
     def ref(c): return nicks[c - 1] if use_nick else str(c)
     ws = [' ', '  ', '\t', '\n', ' \n ', '\r\n', ' ', '\n', '\r', '\x0c', '\u2028']
     def sep(): return rng.choice(ws)
